@@ -21,8 +21,12 @@ table = "\n".join(["| seed | what it breaks | needs to manifest | outcome of the
 p = "/verif/DESIGN.md"
 s = open(p).read()
 marker = "## 9. Seeded changes: which check catches which"
+tail = ""
 if marker in s:
+    rest = s[s.index(marker):]
     s = s[:s.index(marker)]
-s = s.rstrip() + "\n\n" + marker + "\n\nEach seed was written by a fresh sub-agent that saw only the property text and its own scratch worktree; each was confirmed\n(builds, the 37 tests pass with it, its demonstration fails with it and passes without) before the checks were run against it\n(`tools/try_seed.py`). `history` records checks that missed a seed at first and what was strengthened.\n\n" + table + "\n"
+    if "\n## 10." in rest:
+        tail = rest[rest.index("\n## 10."):]          # later sections are kept
+s = s.rstrip() + "\n\n" + marker + "\n\nEach seed was written by a fresh sub-agent that saw only the property text and its own scratch worktree; each was confirmed\n(builds, the 37 tests pass with it, its demonstration fails with it and passes without) before the checks were run against it\n(`tools/try_seed.py`). `history` records checks that missed a seed at first and what was strengthened.\n\n" + table + "\n" + tail
 open(p, "w").write(s)
 print(len(rows), "seeds")
